@@ -15,7 +15,7 @@ PREAMBLE = ["UDJUDJUDJU", "DUFJUDVUJD", "JJDUFUDDUJ"]
 
 def spaces(tier):
     if tier == "quick":
-        return dict(sigma="UDFJ", n=4, n_step=6, sigma_step="UDF", tfcs=[
+        return dict(sigma="UDFJ", n=4, n_step=5, sigma_step="UDF", tfcs=[
             ((None, False, None, None), ["step"]),
             (("T2", False, None, None), ["reg", "mix"]),
             (("T2", True, None, None), ["mix", "gappy"]),
